@@ -22,15 +22,33 @@ def config(quick):
     return dict(max_loggers=2, init_level=5, names=["a"], bool_lists=[[], [False]], layouts=[""],
                 opt_lists=[[], [opt("Attrs", 2, 2)], [opt("Attrs", 1, 7), opt("Attrs", 3, -2)]],
                 setter_args=sa, acts=["Set", "With", "New", "LogM", "SetAttrsR"], probe_sevs=[4], max_list=2,
+                flag_sets=[["attrsR"], ["date", "attrsR"]],
                 groups=GROUPS, ctx_vals=CTX_VALS[:2] if quick else CTX_VALS,
-                call_args=[CALL_ARGS[i] for i in (0, 2, 3, 6, 9)] if quick else CALL_ARGS)
+                call_args=[CALL_ARGS[i] for i in (0, 2, 6, 9)] if quick else CALL_ARGS)
 
 
 def config_chain(quick):
     """Chains of three loggers: inheritance outermost first (only attribute appends and the flag)."""
     c = config(True)
     c.update(max_loggers=3, setter_args={"Attrs": [(1, 1), (2, 2)] if quick else [(1, 1), (2, 2), (3, -1)]},
-             acts=["Set", "With", "LogM", "SetAttrsR"], max_list=1, ctx_vals=[CTX_VALS[0], CTX_VALS[3]], call_args=CALL_ARGS[:3])
+             acts=["Set", "With", "LogM", "Flags"], max_list=1, max_saved=1, flag_sets=[["attrsR"]],
+             ctx_vals=[CTX_VALS[0]], call_args=CALL_ARGS[:2] if quick else CALL_ARGS[:3])
+    return c
+
+
+def config_nilctx(quick):
+    """A nil context (and contexts with / without the values) on loggers with registered context keys."""
+    c = config(True)
+    c.update(max_loggers=1, setter_args={"CtxKeys": [(1, 0), (2, 0)], "Attrs": [(51, 3)]}, acts=["Set", "LogM"], max_list=2,
+             ctx_vals=[CTX_VALS[3], CTX_VALS[1], CTX_VALS[2], CTX_VALS[0]], call_args=[[], [(51, 4)], [(1, 9)]])
+    return c
+
+
+def config_big(quick):
+    """Loggers owning more attributes than any pooled slice starts with (128), alone and in chains, with context values."""
+    c = config(True)
+    c.update(max_loggers=2 if quick else 3, setter_args={"AttrsN": [(60, 100), (130, 300)], "CtxKeys": [(1, 0)]},
+             acts=["Set", "With", "LogM", "SetAttrsR"], max_list=1, ctx_vals=[CTX_VALS[1], CTX_VALS[0]], call_args=[[], [(1, 9)]])
     return c
 
 
@@ -49,8 +67,9 @@ def rand_config(c, seed):
     r["ctx_vals"] = c["ctx_vals"] + [x for x in CTX_VALS if x not in c["ctx_vals"]] + [[(2, 7)], [(1, 1), (2, 2), (3, 3)]]
     r["setter_args"] = {"Attrs": [(k, v) for k in (1, 2, 3, 4, 51, 52) for v in (1, 2)] + [(3, -1), (5, -2), (6, -4), (7, -5), (8, -7)],
                         "Attrs1": [(2, 3), (8, 1)], "SetKV": [(1, 4), (9, 2)], "CtxKeys": [(1, 0), (2, 0), (3, 0)],
+                        "AttrsN": [(60, 100), (130, 200)],      # more than any pooled slice starts with
                         "JSONMode": [(1, 0)], "ColorMode": [(1, 0), (2, 0)]}
-    r["acts"] = ["Set", "Set", "With", "With", "New", "LogM", "LogM", "LogM", "SetAttrsR"]
+    r["acts"] = ["Set", "Set", "With", "With", "New", "LogM", "LogM", "LogM", "SetAttrsR", "Flags"]
     r["max_loggers"] = 2
     return r
 
@@ -69,10 +88,14 @@ def run(ctx, replay):
     if replay:
         return corelib.replay_core(ctx, replay, rc, OBS)
     corelib.run_core(ctx, c, invariants=["MergeOK", "TreeOK"], properties=["Isolation"], obs=OBS,
-                     rand_count=60 if ctx.quick() else 1200, rand_depth=30 if ctx.quick() else 45,
+                     rand_count=30 if ctx.quick() else 1200, rand_depth=30 if ctx.quick() else 45,
                      rand_loggers=5, rand_cfg=rc, key_fn=explain, tag="merge")
-    corelib.run_core(ctx, config_chain(ctx.quick()), invariants=["MergeOK", "TreeOK"], properties=[], obs=OBS,
+    corelib.run_core(ctx, config_chain(ctx.quick()), invariants=["MergeOK", "TreeOK", "FlagsOK"], properties=[], obs=OBS,
                      rand_count=0, rand_depth=0, rand_loggers=3, key_fn=explain, tag="chain")
+    corelib.run_core(ctx, config_big(ctx.quick()), invariants=["MergeOK"], properties=[], obs=OBS,
+                     rand_count=0, rand_depth=0, rand_loggers=3, key_fn=explain, tag="big")
+    corelib.run_core(ctx, config_nilctx(ctx.quick()), invariants=["MergeOK"], properties=[], obs=OBS,
+                     rand_count=0, rand_depth=0, rand_loggers=1, key_fn=explain, tag="nilctx")
     ctx.assumptions += ["attribute keys are aNNN names whose byte order is the numeric order of the model's key ids; values are integers",
                         "the printed attributes are projected from the record by an order-preserving JSON token walk / a dotted-key scan "
                         "of the logfmt and colored text",
